@@ -327,3 +327,50 @@ def run(ctx):
         check_kernels(ctx, "C06.K", ['accrued-per-period', 'payment-for-period'])
         from .kernels import check_leaves
         check_leaves(ctx, "C06.K", ['group.program_fees_enabled'])
+
+
+R1B_EXEMPT = {
+    "lending_pool_add_bank": "new bank: last_update initialised at creation", "lending_pool_add_bank_with_seed": "new bank", "lending_pool_add_bank_permissionless": "new bank",
+    "lending_pool_add_bank_kamino": "new bank", "lending_pool_add_bank_drift": "new bank", "lending_pool_add_bank_solend": "new bank",
+    "lending_pool_clone_bank": "staging/localnet only; new bank",
+}
+for _v in ("kamino_deposit", "kamino_withdraw", "drift_deposit", "drift_withdraw", "solend_deposit", "solend_withdraw"):
+    R1B_EXEMPT[_v] = "venue pass-through bank: borrowing is disabled, so there is no interest to accrue and update_bank_cache (which stamps only when liabilities exist) cannot hide any"
+
+
+def _timestamp_only_after_accrual(ctx):
+    """C06.R1: in every instruction, Bank.last_update moves only through the accrual routine or after it has run in the same handler
+    (a helper that stamps the accrual time without accruing would make the next accrual skip the elapsed interest)."""
+    prog = ctx.prog
+    acc = accrual_fn(ctx)
+    if acc is None:
+        return
+    n = 0
+    for ixn, ent in sorted(ctx.am.instructions.items()):
+        if not ent["handlers"]:
+            continue
+        h = ent["handlers"][0]
+        if (BANK, "last_update") not in prog.writes(h.key) and (BANK, "*") not in prog.writes(h.key):
+            continue
+        acc_blocks = [c.block for c in h.calls() if c.key == acc.key]
+        wb = [b for b in A.write_blocks(prog, h, lambda o, n_: (o, n_) == (BANK, "last_update")) if b not in acc_blocks]
+        if not wb:
+            continue
+        if ixn in R1B_EXEMPT:
+            ctx.inst("C06.R1", "timestamp-only-after-accrual/" + ixn, True, "exempt: " + R1B_EXEMPT[ixn], "exempt (table)", h.loc(h.raw["span"]))
+            continue
+        n += 1
+        bad = [b for b in wb if not (acc_blocks and A.set_dominates(h, acc_blocks, b))]
+        ctx.inst("C06.R1", "timestamp-only-after-accrual/" + ixn, not bad,
+                 "every write of Bank.last_update in %s happens inside the accrual routine or after it has run" % ixn,
+                 ["last_update written at %s without a preceding accrual" % h.bloc(b) for b in bad[:3]] or "ok", h.loc(h.raw["span"]))
+
+
+_run_pre_ts = run
+
+
+def run(ctx):
+    try:
+        _run_pre_ts(ctx)
+    finally:
+        _timestamp_only_after_accrual(ctx)
